@@ -106,6 +106,8 @@ class C19(Check):
                "they are handed (sequential entry); observers that raise are outside the check (the code treats them as a "
                "processor failure of the stage)"]
     ASSUMPTIONS = ["amplification factors are finite, non-NaN doubles",
+                   "a processor may run the same pipeline object on a sub-item before it answers (sequential entry; the inner "
+                   "run is not recorded, the outer run must come out as if it had not happened)",
                    "one stage object may sit at several positions of a pipeline (its callbacks are attributed to positions "
                    "in visiting order)",
                    "stage names are strings (any: empty, repeated, falsy-looking); a result is attributed to a stage by "
@@ -155,6 +157,9 @@ class C19(Check):
                 a, b = sorted(rng.sample(range(ns), 2))
                 c["stages"][b] = dict(c["stages"][a])
                 c["share"] = [[a, b]]
+            # a processor that runs the same pipeline object on a sub-item (sequential entry, no shared stage objects)
+            if not c.get("share") and c["entry"] == "run" and rng.random() < 0.12:
+                c["reenter"] = rng.randrange(ns)
             # an observer that rewrites the record it is handed (sequential entry only)
             if c["hooks"] and c["entry"] == "run" and rng.random() < 0.5:
                 c["hooks"] = "mutate"
@@ -185,6 +190,8 @@ class C19(Check):
                         c["share"] = [[0, n - 1]]
                     if len(out) % 3 == 0:
                         c["hooks"] = "mutate"
+                    if not c.get("share") and len(out) % 5 == 1:
+                        c["reenter"] = len(out) % n
         # ONE stage object at two positions whose behaviour depends on the signal (it raises / is gated shut on one visit
         # and goes through on the other), with a parity-flipping stage in between
         flip = {"c": None, "p": ["aff", 1, 1], "h": None, "req": True, "f": 2.0}
@@ -251,13 +258,15 @@ class C19(Check):
         kw = {}
         if case.get("hooks"):
             def on_stage(r):
+                if hooked.get("depth"):
+                    return                      # an inner (re-entrant) run: not what this observer is recording
                 hooked["stage"].append(r.stage_name)
                 if case.get("hooks") == "mutate" and case.get("entry") != "run_parallel":
                     # an audit observer that trims / redacts the record it was handed
                     r.output_signal = -4242
                     r.input_signal = -4343
             kw = {"on_stage_complete": on_stage,
-                  "on_cascade_complete": lambda r: hooked["cascade"].append(bool(r.success))}
+                  "on_cascade_complete": lambda r: None if hooked.get("depth") else hooked["cascade"].append(bool(r.success))}
         import contextlib
         import io
         out_cm = contextlib.redirect_stdout(io.StringIO()) if case.get("loud") else contextlib.nullcontext()
@@ -271,6 +280,8 @@ class C19(Check):
         names = stage_names(case)
         cls = name_classes(names)
         phase = {"warm": False}
+        depth = hooked.setdefault("depth", [])
+        parallel_entry = case.get("entry") == "run_parallel"
         share = {b: a for a, b in case.get("share") or []}
         visits = {}                       # first position of a shared object -> visits so far in the current run
         import threading as _th
@@ -315,6 +326,18 @@ class C19(Check):
                 def processor(x):
                     i = where(1)
                     log.append([i, 1, x])
+                    if case.get("reenter") == i0 and not depth and len(positions) == 1 and not parallel_entry:
+                        # the processor runs the SAME pipeline object on a sub-item before it answers (what the inner run
+                        # does is not recorded; the outer run must come out as if it had not happened)
+                        depth.append(1)
+                        keep = len(log)
+                        try:
+                            casc.run(x + 1)
+                        except BaseException:  # noqa
+                            pass
+                        finally:
+                            del log[keep:]
+                            depth.pop()
                     r = ev_proc(s["p"], x)
                     if r[0] == "raise":
                         raise ProcError(x)
